@@ -6,6 +6,7 @@ import (
 	"fmt"
 	"math"
 	"strconv"
+	"strings"
 
 	"github.com/evolbioinfo/gotree/io"
 	"github.com/evolbioinfo/gotree/mutils"
@@ -189,8 +190,18 @@ func (e *Edge) DumpBitSet() string {
 	if e.bitset == nil {
 		return "nil"
 	}
-	s := e.bitset.DumpAsBits()
-	return s[len(s)-int(e.bitset.Len())-1 : len(s)]
+	// One character per tip, from the last position of the index to the first one, then a '.'
+	// (DumpAsBits separates 64 bit words with a '.', so it cannot be sliced when there are more than 64 tips)
+	var s strings.Builder
+	for i := e.bitset.Len(); i > 0; i-- {
+		if e.bitset.Test(i - 1) {
+			s.WriteByte('1')
+		} else {
+			s.WriteByte('0')
+		}
+	}
+	s.WriteByte('.')
+	return s.String()
 }
 
 /*
